@@ -27,7 +27,7 @@ def events(tier, seed):
         tmp = tempfile.mkdtemp(prefix='verif-repounits-')
         out = os.path.join(tmp, 'ev')
         env = dict(os.environ, VERIF_REPO_UNITS_OUT=out, VERIF_REPO_UNITS_PER_BUCKET='1' if tier == 'quick' else '6',
-                   PYTHONPATH=VERIF + os.pathsep + os.environ.get('PYTHONPATH', ''), PYTHONHASHSEED='0',
+                   PYTHONPATH=VERIF + os.pathsep + os.environ.get('PYTHONPATH', ''), PYTHONHASHSEED='0', PYTHONDONTWRITEBYTECODE='1',
                    HYPOTHESIS_STORAGE_DIRECTORY=os.path.join(tmp, 'hyp'))           # nothing is written into the repository
         tail = ''
         try:
